@@ -61,11 +61,12 @@ def replay_common(rp):
     if not inp or "relation" not in inp or "base" not in inp:
         print("replay file names no failing input:", rp.get("no_longer_checks") or f.get("what"))
         return 2
-    fails, info = R.check_relation(inp["relation"], inp["base"], inp["params"], inp.get("keyfmt", "tuple"), inp.get("keyfmt_t"))
+    fails, info = R.check_relation(inp["relation"], inp["base"], inp["params"], inp.get("keyfmt", "tuple"), inp.get("keyfmt_t"),
+                                    inp.get("symnames"), inp.get("symnames_t"))
     for x in fails[:5]:
         print("still fails:", x["what"])
     print("relation:", inp["relation"], "params:", json.dumps({k: v for k, v in inp["params"].items() if k != "R"}),
-          "input format:", inp.get("keyfmt"), "base:", json.dumps(gen.case_signature(inp["base"][0])))
+          "input format:", inp.get("keyfmt"), inp.get("keyfmt_t"), "symbols:", inp.get("symnames"), inp.get("symnames_t"), "base:", json.dumps(gen.case_signature(inp["base"][0])))
     return 1 if fails else 0
 
 
